@@ -38,10 +38,19 @@ func oracleC08(r *Result) []*Violation {
 				out = append(out, r.viol(fmt.Sprintf("reset-api: per-method reset generated=%v with -with-resets=%v", has[n], want), n))
 			}
 		}
-		// signature: no parameters, no results
+		// signature: no parameters, no results. Only the names of the reset API are judged:
+		// <M>Calls of an interface method M that itself starts with Reset (ResetGetCalls ->
+		// ResetGetCallsCalls) is an accessor, not a reset method.
+		api := map[string]bool{"ResetCalls": true}
+		other := map[string]bool{}
+		for k := 0; k < it.NumMethods(); k++ {
+			api["Reset"+it.Method(k).Name()+"Calls"] = true
+			other[it.Method(k).Name()] = true
+			other[it.Method(k).Name()+"Calls"] = true
+		}
 		for j := 0; j < mock.NumMethods(); j++ {
 			m := mock.Method(j)
-			if len(m.Name()) > 5 && m.Name()[:5] == "Reset" && want {
+			if api[m.Name()] && !other[m.Name()] && want {
 				sig := m.Type().(*types.Signature)
 				if sig.Params().Len() != 0 || sig.Results().Len() != 0 {
 					out = append(out, r.viol("reset-api: reset method has parameters or results", m.Name()))
